@@ -51,7 +51,9 @@ class SqliteImpl(SqlImpl):
         elif val_type == Datetime() and cast.target_type == Date():
             return sqa.type_coerce(sqa.func.date(compiled_val), sqa.Date())
         elif val_type == Date() and cast.target_type == Datetime():
-            return sqa.type_coerce(sqa.func.datetime(compiled_val), sqa.DateTime())
+            # Datetimes are stored as text with microseconds (`YYYY-MM-DD HH:MM:SS.ffffff`). `datetime(x)`
+            # drops the fraction, which makes the result compare unequal to a stored midnight value.
+            return sqa.type_coerce(sqa.func.strftime("%Y-%m-%d 00:00:00.000000", compiled_val), sqa.DateTime())
 
         elif val_type.is_float() and cast.target_type == String():
             return sqa.case(
